@@ -64,6 +64,50 @@ def key_lint_of(mb):
         return {"verdict": "not understood", "reader": "lint crashed: %r" % (e,)}
 
 
+def lint_cases():
+    """The D20 pattern for the key format the lint read: `x` shadowed once, twice and
+    twelve times next to variables literally called like the keys of x.0, x.1, x.10."""
+    out = []
+    looks = list(G.EXTRA_LOOKALIKES)
+    if not looks:
+        return out
+    V = G.V
+    k = [0]
+
+    def num():
+        k[0] += 1
+        return ('n', k[0])
+    for look in looks[:6]:
+        body = [('decl', "var", [("x", [], num())]), ('decl', "var", [(look, [], num())])]
+        inner = []
+        for i in range(12):
+            inner.append(('block', [('decl', "var", [("x", [], num())]), ('asg', look, [], ('op', V("x"), V(look)), "="),
+                                    ('asg', "x", [], ('op', V("x"), V(look)), "=")]))
+        body += inner + [('ret', ('op', V("x"), V(look)))]
+        out.append({"d": ("function", "f", ["a"], body), "clean": True, "src": "lint " + look})
+    return out
+
+
+def transcription_check(mb, key_lint):
+    """Executes the extracted Model.UniqueVars.ssa_key (driver mode `keys`) on a pool of
+    (name, suffix) pairs and compares it with the format the lint read from the text,
+    rendered in Python. Information only: `{}:{}` is a harmless rewrite that differs."""
+    ps = key_lint.get("pieces")
+    pool = [(nm, sf) for nm in ("x", "x_0", "x0", "$x", "y1") for sf in ("-", "0", "1", "10")]
+    try:
+        outs = common.run_lines(mb, ["keys"], ["%s %s" % p for p in pool])
+    except Exception as e:
+        return {"executed": False, "error": repr(e)}
+    model = [o.split(" ")[1] if len(o.split(" ")) == 2 else "?" for o in outs]
+    res = {"executed": True, "pairs": len(pool), "model_keys_sample": model[:4]}
+    if ps:
+        def rnd(pp, nm, sf):
+            return "".join(nm if a == "name" else sf if a == "suffix" else bytes.fromhex(b or "").decode(errors="replace") for a, b in pp)
+        text = [rnd(ps["none"], nm, "") if sf == "-" else rnd(ps["some"], nm, sf) for nm, sf in pool]
+        res["equals_the_format_read_from_the_text"] = (text == model)
+    return res
+
+
 def identchar_probe(bins):
     """Which bytes may occur inside an identifier? For every byte b of 1..127 the
     function `function f() { var a<b>z = 1; return 0; }` is parsed by the real
@@ -111,6 +155,20 @@ def decl_names(truth):
     return {dc: n for (k, n, dc) in truth["occ"] if k == "d"}
 
 
+def canon_reports(tokens, expected):
+    """CODE:primary:secondary:NAMES -> the 4th field becomes the expected name when it
+    is one of the backquoted words of the message (the harness prints all of them:
+    a reworded message with further quoted words still names the variable)."""
+    out = []
+    for i, t in enumerate(tokens or []):
+        f = t.split(":")
+        want = expected[i].split(":")[3] if i < len(expected) and expected[i].count(":") >= 3 else None
+        if len(f) == 4 and want is not None and want in f[3].split(","):
+            f[3] = want
+        out.append(":".join(f))
+    return out
+
+
 def expected_reports(truth, dr, pr):
     """CS0001:primary:secondary:NAME -- the report names the redeclared variable."""
     exp = []
@@ -139,6 +197,9 @@ def expected_lookup(truth, dr, pr):
     return out
 
 
+POST_SSA = {"local_lookups": 0, "local_lookups_none": 0}
+
+
 def ssa_failures(truth, dr, pr, secs, clean):
     """The SSA clauses, on the `ssa` section of a successful construction.
     (1) every versioned read has a definition of the same (name, suffix, version);
@@ -149,7 +210,19 @@ def ssa_failures(truth, dr, pr, secs, clean):
         leave gaps;
     (4) an occurrence the oracle resolves to a local variable / parameter carries
         a version, one it resolves to a signal or component carries none (the
-        lookup of the declaration by (name, suffix) decides `is_local`)."""
+        lookup of the declaration by (name, suffix) decides `is_local`);
+    (5) the Declaration statement of a local variable lists exactly the versions
+        named for it (0 alone if it is never assigned): `d=` tokens
+        (update_declarations / get_version_range);
+    (6) the table of declarations after into_ssa (`tab2`) has, at the location of
+        the declaration, one row per listed version of a local, one row per
+        version 0..k of a parameter at the parameter list, one unversioned row
+        per signal / component;
+    (7) after into_ssa `Cfg::get_declaration` answers for an occurrence of a signal
+        or component with the declaration the oracle resolves it to (`dcl2`).
+        For a LOCAL it answers nothing in the unchanged code (the table is keyed
+        with versions, the lookup strips the version): observed and counted, no
+        requirement."""
     errs = []
     s = secs["ssa"]
     params = [p for p in s[0].strip("[]").split(",") if p]
@@ -203,6 +276,66 @@ def ssa_failures(truth, dr, pr, secs, clean):
                 if not local and ver != "-":
                     errs.append(("ssa", "an occurrence of a signal / component is versioned as if it were a local variable", t, n))
                     break
+            # (7)
+            dcl2 = secs.get("dcl2")
+            if dcl2 is not None and len(dcl2) == len(want) and not errs:
+                explook = [w for w, o in zip(expected_lookup(truth, dr, pr), truth["occ"]) if o[0] != "d"]
+                for (g, (k, n, dc)), t, e in zip(want, dcl2, explook):
+                    if dc is None:
+                        continue
+                    local = isinstance(dc, (list, tuple)) or truth["kw"][dc] == "var"
+                    if local:
+                        POST_SSA["local_lookups"] += 1
+                        POST_SSA["local_lookups_none"] += t.endswith("-")
+                    elif t[1:] != e[1:]:
+                        errs.append(("dcl2", "after into_ssa an occurrence of %s is looked up as another declaration than the one it denotes" % n, t, e))
+                        break
+            elif dcl2 is not None and len(dcl2) != len(want):
+                errs.append(("dcl2", "number of occurrences", len(dcl2), len(want)))
+        # (5), (6): declared versions and the rows of the table after into_ssa
+        declared = {}
+        for t in s[1:]:
+            if t.startswith("d="):
+                key, ver = t[2:].rsplit("/", 1)
+                declared.setdefault(key, []).append(ver)
+        rows = {}
+        for r in secs.get("tab2", []):
+            m = re.match(r"^(.*)/([^/@]*)@(\d+-\d+):(\w)(!key)?$", r)
+            if not m:
+                errs.append(("tab2", "row not understood", r))
+                break
+            rows.setdefault(m.group(1), []).append((m.group(2), m.group(3), m.group(4), m.group(5)))
+        if not errs:
+            seen_keys = set()
+            for g, (k, n, dc) in zip(ir, truth["occ"]):
+                if k != "d":
+                    continue
+                key = g.split("=", 1)[1]
+                seen_keys.add(key)
+                local = truth["kw"][dc] == "var"
+                loc = "%d-%d" % tuple(dr[dc])
+                if local:
+                    vs = named.get(key) or {0}
+                    wantv = sorted(str(v) for v in vs)
+                else:
+                    wantv = ["-"]
+                if sorted(declared.get(key, [])) != wantv:
+                    errs.append(("ssa", "the declaration of %s lists other versions than the ones named for it" % key, sorted(declared.get(key, [])), wantv))
+                    break
+                wantrows = sorted((v, loc, TYPE_LETTER[truth["kw"][dc]], None) for v in wantv)
+                if "tab2" in secs and sorted(rows.get(key, [])) != wantrows:
+                    errs.append(("tab2", "the rows of %s after into_ssa are not one per version at its declaration" % key, sorted(rows.get(key, [])), wantrows))
+                    break
+            if not errs and "tab2" in secs:
+                ploc = "%d-%d" % tuple(pr)
+                for p in params:
+                    wantrows = sorted((str(v), ploc, "L", None) for v in named.get(p, {0}))
+                    if sorted(rows.get(p, [])) != wantrows:
+                        errs.append(("tab2", "the rows of the parameter %s after into_ssa are not one per version" % p, sorted(rows.get(p, [])), wantrows))
+                        break
+                extra = set(rows) - seen_keys - set(params)
+                if extra and not errs:
+                    errs.append(("tab2", "rows for names that are neither parameters nor declarations", sorted(extra)[:3]))
     return errs
 
 
@@ -211,7 +344,8 @@ def oracle_check(d, truth, dr, pr, secs, clean, sugar):
     errs = []
     occ = truth["occ"]
     if truth["dup_param"] is not None:
-        if secs.get("perr") != ["CS0002:%d-%d:-:%s" % (tuple(pr) + (truth["dup_param"],))]:
+        want = ["CS0002:%d-%d:-:%s" % (tuple(pr) + (truth["dup_param"],))]
+        if canon_reports(secs.get("perr"), want) != want:
             errs.append(("repeated parameter not reported by the pass", secs.get("perr"), secs.get("ren", [])[:3]))
         if secs.get("ir", [""])[:1] != ["error"] or not secs["ir"][1:2] or not secs["ir"][1].startswith("CS0002"):
             errs.append(("repeated parameter not reported by into_cfg", secs.get("ir", [])[:2]))
@@ -263,9 +397,9 @@ def oracle_check(d, truth, dr, pr, secs, clean, sugar):
         if len(tab) != nrows or any(r.endswith("!key") for r in tab):
             errs.append(("tab", "the table of declarations has not one row per parameter and declaration", len(tab), nrows))
     exp = expected_reports(truth, dr, pr)
-    if secs.get("rep") != exp:
+    if canon_reports(secs.get("rep"), exp) != exp:
         errs.append(("shadowing reports differ from the redeclaring declarations", secs.get("rep"), exp))
-    if "rep2" in secs and secs["rep2"] != exp:
+    if "rep2" in secs and canon_reports(secs["rep2"], exp) != exp:
         errs.append(("shadowing reports of into_cfg differ from the redeclaring declarations", secs.get("rep2"), exp))
     s = secs.get("ssa")
     if s is not None:
@@ -320,11 +454,11 @@ def params_of(look):
     return [[], ["x"], [look], ["x", look], ["y"], [look, "y", "x"]]
 
 
-def exhaustive_cases(ctx, kmax, depth_of, fam_kmax):
+def exhaustive_cases(ctx, kmax, depth_of, fam_kmax, families=None):
     """Every scope forest with <= kmax leaves over {x, x_0}; the same over the
     other families up to fam_kmax leaves."""
     rng = ctx.rng
-    for look in FAMILIES:
+    for look in (families or FAMILIES):
         top = kmax if look == FAMILIES[0] else min(kmax, fam_kmax)
         for k in range(1, top + 1):
             # assignment targets (`x = 1`, `x += 1`, `x++`) are leaves of their own up to 3 leaves
@@ -350,6 +484,36 @@ def deep_cases(ctx, n):
     for i in range(n):
         clean = (i % 3 != 0)
         yield {"d": G.deep_def(ctx.rng, clean=clean), "clean": clean, "src": "deep"}
+
+
+def fixed_cases():
+    """Deterministic cases, run through the engines AND end to end on every run:
+    repeated parameters in a FUNCTION and in a template, five parameters of which
+    two different names repeat (the error must name the FIRST repeated one),
+    `else if`, several declarators in a `for` header, templates that instantiate
+    an earlier and a later template of the same file (the callee is lifted lazily
+    by the analysis of the caller; its own findings must still be displayed)."""
+    V = G.V
+    n = lambda k: ('n', k)     # noqa: E731
+    shadow = ('block', [('decl', "var", [("x", [], n(7))]), ('asg', "x", [], ('op', V("x"), n(8)), "=")])
+    out = [
+        ("function", ["a", "b", "a"], [('decl', "var", [("x", [], V("a"))]), ('ret', V("x"))]),
+        ("function", ["a", "b", "c", "b", "a"], [('ret', V("a"))]),
+        ("template", ["p", "q", "r", "q", "p"], [('decl', "signal", [("x", [], None)])]),
+        ("function", ["x", "y", "z", "w"],
+         [('decl', "var", [("r", [], n(0))]),
+          ('if', V("x"), ('asg', "r", [], n(1), "="),
+           ('if', V("y"), ('block', [('decl', "var", [("x", [], n(2))]), ('asg', "r", [], V("x"), "=")]),
+            ('if', V("z"), ('asg', "r", [], V("x"), "="), ('block', [('decl', "var", [("y", [], V("x"))]), ('asg', "r", [], V("y"), "=")])))),
+          ('for', ('decl', "var", [("i", [], n(0)), ("j", [], V("i"))]), ('op', V("i"), n(3)), ('inc', "i", []),
+           ('block', [('decl', "var", [("i", [], V("j"))]), ('asg', "r", [], ('op', V("i"), V("j")), "=")])),
+          ('ret', ('op', V("r"), V("x")))]),
+        ("template", ["x"], [('decl', "component", [("c", [], ('call', [V("x"), n(1)]))]), shadow,
+                             ('decl', "component", [("d", [], ('par', ('call', [V("x"), n(2)])))])]),
+        ("template", ["x"], [shadow, ('decl', "component", [("c", [], ('call', [V("x"), n(3)]))])]),
+        ("template", ["x", "y"], [('decl', "var", [("y", [], V("x"))]), ('decl', "component", [("c", [], ('call', [V("y"), n(4)]))]), shadow]),
+    ]
+    return [{"d": (k, "f" if k == "function" else "T", ps, body), "clean": False, "src": "fixed"} for k, ps, body in out]
 
 
 def corpus_cases():
@@ -406,6 +570,16 @@ def features(c):
     out = []
     if "parallel" in t:
         out.append("parallel")
+    if re.search(r"else\s+if", t):
+        out.append("else if")
+    if re.search(r"for \(var [^;]*,", t):
+        out.append("several declarators in a for header")
+    if len(c["d"][2]) >= 4:
+        out.append(">= 4 parameters")
+    if len(c["d"][2]) - len(set(c["d"][2])) >= 2:
+        out.append("two repeated parameter names")
+    if re.search(r"(?:while|for|if) \([^\n]*\)\n\s*(?:if|while|log|assert)", t) or re.search(r"else\n\s*(?:while|log|assert)", t):
+        out.append("unbraced body other than an assignment")
     if re.search(r"\w\.\w", t):
         out.append("component access")
     if re.search(r"\][\[.]", t):
@@ -448,7 +622,8 @@ def run_batch(cases, bins, st):
                 if k == "ir" and not (c["sugar"] or truth["dup_param"] is not None):
                     dis.append(("ir: the real lifting failed", real.get("ir")[:3], model[k][:3]))
                 continue
-            if model[k] != real.get(k):
+            got = canon_reports(real.get(k), model[k]) if k in ("rep", "perr") and real.get(k) is not None else real.get(k)
+            if model[k] != got:
                 dis.append((k + ": mirror differs from the implementation", real.get(k), model[k]))
         if sp.get("closed") != ["1"] and not c.get("unbraced"):
             dis.append(("a generated program is outside Spec.ScopeSpec.branch_closed (a loop body or branch declares a name outside a "
@@ -531,6 +706,15 @@ def linecol(text, off):
     return line, col
 
 
+def name_shown(quoted, want):
+    """The displayed name: `want` when it is one of the backquoted words of the message
+    (a reworded message may quote further words), else what is quoted."""
+    for w in want or []:
+        if w in quoted:
+            return w
+    return "|".join(quoted) or "?"
+
+
 def e2e(ctx, cli, cases, st_e2e):
     """Packs definitions into files, runs `circomspect --verbose --sarif-file`,
     compares the displayed CS0001 / CS0002 findings with the oracle."""
@@ -544,10 +728,19 @@ def e2e(ctx, cli, cases, st_e2e):
         text = "pragma circom 2.0.0;\n"
         expected = []       # (rule, (sl, sc, el, ec), related|None)
         spans = []
+        def nm(j):
+            return "%s%d" % ("f" if chunk[j]["d"][0] == "function" else "T", j)
         for j, c in enumerate(chunk):
             d = c["d"]
-            d = (d[0], "%s%d" % ("f" if d[0] == "function" else "T", j), d[2], d[3])
-            t, dr, pr = G.render(d)
+            d = (d[0], nm(j), d[2], d[3])
+            # calls / component instantiations name ANOTHER definition of the same kind in the
+            # file (earlier or later): templates are then lifted lazily by the analysis of a caller
+            same = [i for i in range(len(chunk)) if i != j and chunk[i]["d"][0] == d[0]]
+            G.CALLEE[0] = nm(same[(j * 7 + 3) % len(same)]) if same else "g"
+            try:
+                t, dr, pr = G.render(d)
+            finally:
+                G.CALLEE[0] = "g"
             base = len(text.encode())
             spans.append((base, base + len(t.encode()), t, d))
             text += t
@@ -564,12 +757,12 @@ def e2e(ctx, cli, cases, st_e2e):
         path = os.path.join(wdir, "case_%d.circom" % (fi // per_file))
         with open(path, "w") as f:
             f.write(text)
-        jobs.append((path, text, expected, spans))
+        jobs.append((path, text, expected, spans, [tolist(c["d"]) for c in chunk]))
 
     import concurrent.futures
 
     def one(job):
-        path, text, expected, spans = job
+        path, text, expected, spans, _ = job
         sarif = path + ".sarif"
         try:
             os.remove(sarif)
@@ -580,7 +773,7 @@ def e2e(ctx, cli, cases, st_e2e):
 
     with concurrent.futures.ThreadPoolExecutor(max_workers=common.NPROC) as ex:
         results = list(ex.map(one, jobs))
-    for (path, text, expected, spans), (rc, out) in zip(jobs, results):
+    for (path, text, expected, spans, chunk_defs), (rc, out) in zip(jobs, results):
         st_e2e["files"] += 1
         st_e2e["definitions"] += len(spans)
         exp_regions = []
@@ -588,6 +781,10 @@ def e2e(ctx, cli, cases, st_e2e):
             pl = linecol(text, p[0]) + linecol(text, p[1])
             sl = (linecol(text, s[0]) + linecol(text, s[1])) if s is not None else None
             exp_regions.append((rule, pl, sl, nm))
+        # the name a finding displays: the expected one if it is among the backquoted words of the message
+        want_name = {}
+        for r, pl, _, nm in exp_regions:
+            want_name.setdefault((r, (pl[0], pl[1])), []).append(nm)
         # displayed: header lines and their primary location
         shown = []
         lines = out.splitlines()
@@ -601,7 +798,7 @@ def e2e(ctx, cli, cases, st_e2e):
                     if m2:
                         loc = (int(m2.group(1)), int(m2.group(2)))
                         break
-                shown.append((m.group(1), loc, quoted[0] if len(set(quoted)) == 1 else "|".join(quoted) or "?"))
+                shown.append((m.group(1), loc, name_shown(quoted, want_name.get((m.group(1), loc)))))
         # SARIF: regions of primary and related locations
         got = []
         try:
@@ -614,7 +811,7 @@ def e2e(ctx, cli, cases, st_e2e):
                     pl = rg(r["locations"][0]) if r.get("locations") else None
                     rel = [rg(x) for x in r.get("relatedLocations", [])]
                     quoted = re.findall(r"`([^`]*)`", (r.get("message") or {}).get("text", ""))
-                    got.append((r["ruleId"], pl, rel[0] if rel else None, quoted[0] if len(set(quoted)) == 1 else "|".join(quoted) or "?"))
+                    got.append((r["ruleId"], pl, rel[0] if rel else None, name_shown(quoted, want_name.get((r["ruleId"], pl and pl[:2])))))
         except (OSError, ValueError, KeyError, IndexError) as e:
             got = [("no-sarif", repr(e), None, None)]
         st_e2e["findings_expected"] += len(exp_regions)
@@ -632,8 +829,11 @@ def e2e(ctx, cli, cases, st_e2e):
                     culprit = {"source": t, "def": tolist(d), "expected": [str(x) for x in e1],
                                "sarif": [str(x) for x in g1], "stdout": [str(x) for x in s1]}
                     break
-            failing.append(culprit or {"file": path, "expected": [str(x) for x in exp_regions][:10],
-                                       "sarif": [str(x) for x in got][:10], "stdout": [str(x) for x in shown][:10]})
+            culprit = culprit or {"file": path, "expected": [str(x) for x in exp_regions][:10],
+                                  "sarif": [str(x) for x in got][:10], "stdout": [str(x) for x in shown][:10]}
+            culprit["file_defs"] = chunk_defs       # the whole file: definitions reference each other
+            culprit["file_text"] = text
+            failing.append(culprit)
     return failing
 
 
@@ -647,16 +847,25 @@ def run(ctx, proofs):
     cli = common.build_cli()
     quick = ctx.tier == "quick"
     st = Stats()
-    # 1. regression corpus first (witnesses of the repaired defects)
+    POST_SSA.update({"local_lookups": 0, "local_lookups_none": 0})
+    # 0. lint: Environment::version_key as read from the text of ssa_impl.rs. The identifiers
+    #    that are the key of a suffixed x under the format it reads join the name pools of the
+    #    generators, so that a shared version counter is exposed whatever the literal is.
+    key_lint = key_lint_of(mb)
+    G.EXTRA_LOOKALIKES[:] = list(key_lint.get("lookalikes_fed_to_the_generator") or [])
+    key_lint["transcription"] = transcription_check(mb, key_lint)
+    families = FAMILIES + G.EXTRA_LOOKALIKES[:1]
+    # 1. regression corpus first (witnesses of the repaired defects), then the fixed cases
     corpus = corpus_cases()
-    run_batch(list(corpus), (hb, mb), st)
+    fixed = fixed_cases()
+    run_batch(list(corpus) + lint_cases() + fixed, (hb, mb), st)
     corpus_failing = len(st.failing)
     # 2. exhaustive scope forests
     kmax = 4 if quick else 5
     depth_of = (lambda k: 3) if quick else (lambda k: 3 if k <= 4 else 2)
     batch = []
     n_exh = 0
-    for c in exhaustive_cases(ctx, kmax, depth_of, 4):
+    for c in exhaustive_cases(ctx, kmax, depth_of, 4, families):
         batch.append(c)
         n_exh += 1
         if len(batch) >= BATCH:
@@ -687,13 +896,11 @@ def run(ctx, proofs):
     run_unbraced([{"d": G.unbraced_def(ctx.rng), "clean": False, "src": "unbraced"} for _ in range(n_unb)], (hb, mb), st)
     # 4. end to end
     st_e2e = {"files": 0, "definitions": 0, "findings_expected": 0}
-    e2e_cases = [c for c in corpus if not G.has_sugar(c["d"][3])] + e2e_pool
+    e2e_cases = fixed + [c for c in corpus if not G.has_sugar(c["d"][3])] + e2e_pool
     e2e_failing = e2e(ctx, cli, e2e_cases, st_e2e)
 
     # 5. the character class of identifiers (hypothesis ident_ok / nodot) against the lexer
     ident_probe = identchar_probe((hb, mb))
-    # 6. lint: Environment::version_key as read from the text of ssa_impl.rs
-    key_lint = key_lint_of(mb)
 
     # ---- verdict ----
     for f in st.failing[:4]:
@@ -702,7 +909,8 @@ def run(ctx, proofs):
                        "impl": f["impl"], "spec": "oracle: lexical scope resolution of lib/props/c10gen.py; failure: " + " / ".join(f["failure"])})
     for f in e2e_failing[:2]:
         ctx.violation("the binary does not display exactly the shadowing / repeated-parameter findings of the oracle",
-                      {"input": {"source": f.get("source"), "def": f.get("def"), "e2e": True, "file": f.get("file")},
+                      {"input": {"source": f.get("source"), "def": f.get("def"), "e2e": True, "file": f.get("file"),
+                                 "file_defs": f.get("file_defs"), "file_text": f.get("file_text")},
                        "impl": {"sarif": f.get("sarif"), "stdout": f.get("stdout")}, "spec": f.get("expected")})
     if not st.failing and not e2e_failing:
         if st.disagreements:
@@ -766,7 +974,15 @@ def run(ctx, proofs):
         "oracle_failures": len(st.failing),
         "e2e": st_e2e,
         "e2e_failures": len(e2e_failing),
+        "post_ssa_table": {"lookups_of_locals_after_into_ssa": POST_SSA["local_lookups"],
+                           "of_which_answer_nothing": POST_SSA["local_lookups_none"],
+                           "note": "observed behaviour of the unchanged code (versioned keys, version-stripping lookup); no requirement is attached"},
         "open_statements": [
+            "the composite `a USE the resolver assigns to the k-th declaration of n is looked up (get_declaration) as the location and kind of "
+            "that declaration` is not a theorem: C10_renaming_preserves_binding gives the use the name of that declaration and "
+            "C10_declaration_table_keyed_by_declaration gives the row of every declaration's name, but no statement links the resolver's index "
+            "with the location carried by the Declaration statement. Judged by the oracle clause `dcl` on every generated case.",
+            "the table AFTER into_ssa (update_declarations) and the versions listed by the Declaration statements: oracle only (`tab2`, `d=`, `dcl2`).",
             "after into_ssa every versioned read has a definition of the same (name, suffix, version): observed by the oracle on every "
             "generated definition (no Gallina model of the SSA construction in this property; C14 owns it). Proved here: the key of the "
             "version maps is injective on (name, suffix) (C10_ssa_keys_injective), which removes the cause of D20.",
@@ -789,7 +1005,12 @@ def run(ctx, proofs):
         "no Gallina model of the SSA construction in this property (C14 owns it): the SSA clauses are judged by the oracle on the output of the real code",
         "the `Declarations` table: Model.UniqueVars.build_table / get_declaration_of mirror control_flow_graph/lifting.rs (one row per parameter and "
         "Declaration statement, keyed by the lifted name) and declarations.rs::get_declaration; compared with the real table (`tab`) and "
-        "the real answer for every occurrence (`dcl`) on every case, and judged by the oracle; no theorem about the table yet (open statement)",
+        "the real answer for every occurrence (`dcl`) on every case, and judged by the oracle; C10_declaration_table_keyed_by_declaration is about "
+        "this PRE-SSA table and about the lifted names of declarations and parameters (see open_statements for the composite use -> declaration)",
+        "after into_ssa the table is replaced (update_declarations: locals re-keyed WITH their versions) while Declarations::get_declaration still "
+        "strips the version: in the unchanged code the lookup of every occurrence of a LOCAL answers nothing after into_ssa (counted in "
+        "coverage.post_ssa_table; the analyses look up signals and components only). Not modelled; the oracle checks the rows of that table "
+        "(`tab2`), the versions the Declaration statements list (`d=`) and the lookups of signals / components (`dcl2`)",
         "every loop body and branch the pass sees declares nothing outside a block of its own (Spec.ScopeSpec.branch_closed, the domain of "
         "C10_renaming_preserves_binding and C10_shadowing_reports_exact): checked by the extracted predicate on the projection of every "
         "parsed case, and the parser rejects every generated program with a bare declaration as loop body or branch; that the desugarer "
@@ -804,6 +1025,16 @@ def replay(ctx, rep):
         r = identchar_probe((common.build_harness("uniq"), common.build_model("uniq")))
         print("identifier bytes per the parser: %d; mismatches with ident_char: %s" % (r["identifier_bytes"], r["mismatches"][:5]))
         return 1 if r["mismatches"] else 0
+    if inp and inp.get("e2e") and inp.get("file_defs"):
+        cli = common.build_cli()
+        st_e2e = {"files": 0, "definitions": 0, "findings_expected": 0}
+        fails = e2e(ctx, cli, [{"d": d, "clean": False, "src": "replay"} for d in inp["file_defs"]], st_e2e)
+        for f in fails:
+            f.pop("file_defs", None)
+            f.pop("file_text", None)
+        print(inp.get("file_text") or "")
+        print("expected findings:", st_e2e["findings_expected"], "failures:", json.dumps(fails, indent=1)[:3000])
+        return 1 if fails else 0
     if not inp or not inp.get("def"):
         print("replay names a broken obligation or a whole file, not a definition:", rep.get("broken") or inp)
         return 1
